@@ -201,6 +201,57 @@ theorem C25_with_collector (sort : List File → List File) (hsort : ∀ l, (sor
     rw [hc i]
     exact collect_ctr sort ops i
 
+/-! ### the collector under concurrency: search loop and flush timer, with a downstream sender that may block -/
+
+/-- **for every number of results and every schedule of the two goroutines** (every interleaving of their atomic steps,
+    including a downstream Send that stays blocked for arbitrarily many steps of the other goroutine), the observable
+    trace of the collector as written is fine: downstream Sends never overlap — so nothing overtakes the aggregate and
+    the non-thread-safe senders below are never entered concurrently — and when the final flush returns (StreamSearch
+    returns, the stream is closed) every result whose `Send` had returned has been delivered downstream -/
+theorem flush_is_atomic_for_every_schedule (n : Nat) (sched : List Tid) :
+    checkTrace (runSched false (Sys.init n) sched).trace = true := by
+  have h := (runSched_inv sched (Sys.init n) (inv_init n)).obs
+  simp [checkTrace, h]
+
+/-- at every point of every schedule at most one downstream Send is in progress, and it is executed by the goroutine that
+    holds `mu` -/
+theorem downstream_send_holds_the_lock (n : Nat) (sched : List Tid) :
+    let s := runSched false (Sys.init n) sched
+    (s.pcM = .sending → s.holder = some .main ∧ s.pcT ≠ .sending) ∧
+    (s.pcT = .sending → s.holder = some .timer ∧ s.pcM ≠ .sending) := by
+  have h := runSched_inv sched (Sys.init n) (inv_init n)
+  refine ⟨fun hm => ?_, fun ht => ?_⟩
+  · have hh := h.holdM.mpr (by simp [hm, inCrit])
+    refine ⟨hh, fun hc => ?_⟩
+    have := h.holdT.mpr (by simp [hc, inCrit])
+    simp [hh] at this
+  · have hh := h.holdT.mpr (by simp [ht, inCrit])
+    refine ⟨hh, fun hc => ?_⟩
+    have := h.holdM.mpr (by simp [hc, inCrit])
+    simp [hh] at this
+
+/-- nothing is lost or duplicated at any point: collected + in flight + delivered = results that went through -/
+theorem concurrent_accounting (n : Nat) (sched : List Tid) :
+    let s := runSched false (Sys.init n) sched
+    s.processed = s.agg + s.flyM + s.flyT + s.delivered :=
+  (runSched_inv sched (Sys.init n) (inv_init n)).account
+
+/-- the lock really is what makes it true: if `mu` is released before the aggregate is sent downstream, there is a
+    schedule in which the final flush returns while the aggregate is still in flight (results lost when the stream is
+    closed), and one in which a later result overtakes it -/
+theorem unlocked_flush_full_false :
+    checkTrace (runSched true (Sys.init 1)
+      [.main, .main, .main, .main, .timer, .timer, .timer, .main, .main, .main, .main]).trace = false ∧
+    checkTrace (runSched true (Sys.init 2)
+      [.main, .main, .main, .main, .timer, .timer, .timer, .main, .main, .main]).trace = false := by decide
+
+/-- non-vacuity: the same two schedules on the code as written — the blocked goroutine simply waits -/
+example :
+    (runSched false (Sys.init 2)
+      [.main, .main, .main, .main, .timer, .timer, .timer, .main, .main, .main, .timer, .timer,
+       .main, .main, .main, .main, .main, .main, .main, .main]).trace
+      = [.sendRet, .dBegin 1, .dEnd 1, .dBegin 1, .dEnd 1, .sendRet, .finalRet] := by decide
+
 /-! ### further upstream: sendByRepository (search/shards.go) -/
 
 /-- **sendByRepository: for every shard result**, the events sent carry every file exactly once (each run of one
